@@ -39,7 +39,7 @@ PY = {
     "seldom": "(math.sqrt(x/2) if x <= 0.5 else 1-math.sqrt((1-x)/2))", "somewhat": "math.sqrt(x)", "very": "x*x",
 }
 CLS = {"any": "Any", "extremely": "Extremely", "not": "Not", "seldom": "Seldom", "somewhat": "Somewhat", "very": "Very"}
-LAWS = ["formula", "range", "fixed", "monotone", "arrays", "fresh"]
+LAWS = ["formula", "range", "fixed", "monotone", "arrays", "singletons", "fresh"]
 
 
 def _replay(name, law):
@@ -64,6 +64,9 @@ def _replay(name, law):
             "arrays": "X = [v[k] for k in sorted(v) if k.startswith('x') and k[1:].isdigit()]; A = np.array(X); r = Hd.hedge(A)\n"
                       "M = [[v[k] for k in sorted(v) if k.startswith('m%d' % i)] for i in range(2)]; B = np.array(M); r2 = Hd.hedge(B)\n"
                       "bad = not (same(r, [f(t) for t in X], tol) and same(r2, [[f(t) for t in row] for row in M], tol) and same(A, X) and same(B, M))",
+            "singletons": "bad = False\n"
+                          "for A in (np.array([x]), np.array([[x]]), np.array([[x], [x2]]), np.array([[x, x2]]), np.array([[[x]]])):\n"
+                          "    r = Hd.hedge(A); bad = bad or np.shape(r) != A.shape or not same(r, np.vectorize(f)(A), tol)",
             "order": "bad = not (g('Very')(x) <= x + tol and x <= g('Somewhat')(x) + tol)",
             "inverse_vs": "bad = not (same(g('Very')(g('Somewhat')(x)), x, 1e-7) and same(g('Somewhat')(g('Very')(x)), x, 1e-7))",
             "inverse_es": "bad = not (same(g('Extremely')(g('Seldom')(x)), x, 1e-7) and same(g('Seldom')(g('Extremely')(x)), x, 1e-7))",
@@ -109,6 +112,10 @@ def _ob(name, law, tier):
                     z1 *= 0.5
                 z2 = Hd.hedge(core.sym0d(x2))
                 return r2, [_hedge(fl, name).hedge(x2), _hedge(fl, name).hedge(x)], z2      # expected values from fresh hedge objects
+            if law == "singletons":
+                # arrays with one element or with axes of length one keep their shape: (1,), (1,1), (2,1), (1,2), (1,1,1)
+                shapes = ([x], [[x]], [[x], [x2]], [[x, x2]], [[[x]]])
+                return [(Hd.hedge(sym_array(a)), np.shape(np.array(a, dtype=object))) for a in shapes], Hd.hedge(x), Hd.hedge(x2)
             if law == "arrays":
                 n = 2 if tier == "quick" else 4
                 xs = [rvar(f"x{i}") for i in range(n)]
@@ -146,6 +153,16 @@ def _ob(name, law, tier):
             elif law == "fresh":
                 r2, e2, z2 = r
                 ob.prove(pre, p, z3.And(all_same(r2, e2), all_same(z2, [e2[0]])), f"{name}/fresh-results", ins, rp)
+            elif law == "singletons":
+                from symfl.core import kind_of
+                res, fx, fx2 = r
+                bad_kind = [(kind_of(a), shp) for a, shp in res if kind_of(a) != ("array", shp)]
+                if bad_kind:
+                    ob.prove(pre, p, z3.BoolVal(False), f"{name}/singletons/shape", ins, rp)      # replayed: the shapes differ on the real library too
+                    continue
+                flat = lambda a: [t for t in np.asarray(a.a if isinstance(a, core.SymArray) else a, dtype=object).ravel()]
+                claim = z3.And([all_same(flat(a), [fx, fx2][:len(flat(a))]) for a, _ in res])
+                ob.prove(pre, p, claim, f"{name}/singletons", ins, rp)
             elif law == "arrays":
                 r1, e1, r2, e2, xs, m, A, B = r
                 pre2 = [unit(v) for v in xs] + [unit(v) for row in m for v in row]
